@@ -6,11 +6,14 @@ package c17
 
 import (
 	"archive/zip"
+	"bytes"
+	"compress/flate"
 	"encoding/binary"
 	"fmt"
 	"hash/crc32"
 	"io"
 	"os"
+	"path/filepath"
 	"sort"
 	"sync"
 	"testing"
@@ -116,9 +119,35 @@ func crcOfZeros(n int64) uint32 {
 }
 
 type bigMember struct {
-	name string
-	data []byte // nil for the big member
-	size int64
+	name     string
+	data     []byte // nil for a big member
+	size     int64  // uncompressed size of a big member (all zero bytes)
+	deflated bool   // big member stored as a deflate stream (a few MB)
+}
+
+var (
+	zeroFlate     = map[int64][]byte{}
+	zeroFlateLock sync.Mutex
+)
+
+// flateOfZeros is a deflate stream of n zero bytes (about 1.2 MB per GiB).
+func flateOfZeros(n int64) []byte {
+	zeroFlateLock.Lock()
+	defer zeroFlateLock.Unlock()
+	if b, ok := zeroFlate[n]; ok {
+		return b
+	}
+	var out bytes.Buffer
+	w, _ := flate.NewWriter(&out, flate.BestSpeed)
+	buf := make([]byte, 4<<20)
+	for left := n; left > 0; {
+		k := min64(left, int64(len(buf)))
+		w.Write(buf[:k])
+		left -= k
+	}
+	w.Close()
+	zeroFlate[n] = out.Bytes()
+	return out.Bytes()
 }
 
 // buildBig lays the members out back to back with a ZIP64 central directory. style
@@ -135,71 +164,77 @@ func buildBig(members []bigMember, style string) (*sparse, []entry) {
 	u32 := func(b []byte, v uint32) []byte { return le.AppendUint32(b, v) }
 	u64 := func(b []byte, v uint64) []byte { return le.AppendUint64(b, v) }
 	for _, m := range members {
-		size := m.size
+		usize, csize := m.size, m.size
 		var crc uint32
-		if m.data != nil {
-			size = int64(len(m.data))
+		var method uint16
+		payload := m.data
+		switch {
+		case m.data != nil:
+			usize, csize = int64(len(m.data)), int64(len(m.data))
 			crc = crc32.ChecksumIEEE(m.data)
-		} else {
-			crc = crcOfZeros(size)
+		case m.deflated:
+			payload = flateOfZeros(usize)
+			csize, method = int64(len(payload)), 8
+			crc = crcOfZeros(usize)
+		default:
+			crc = crcOfZeros(usize)
 		}
-		bigSize, bigOff := size >= 0xffffffff, pos >= 0xffffffff
-		// local header (sizes in a ZIP64 extra when they do not fit)
+		bigU, bigC, bigOff := usize >= 0xffffffff, csize >= 0xffffffff, pos >= 0xffffffff
+		// local header: a ZIP64 extra there always carries both sizes
 		var lextra []byte
-		s32 := uint32(size)
-		if bigSize {
-			s32 = 0xffffffff
+		u32l, c32l := uint32(usize), uint32(csize)
+		if bigU || bigC {
+			u32l, c32l = 0xffffffff, 0xffffffff
 			lextra = u16(lextra, 1)
 			lextra = u16(lextra, 16)
-			lextra = u64(u64(lextra, uint64(size)), uint64(size))
+			lextra = u64(u64(lextra, uint64(usize)), uint64(csize))
 		}
 		ver := uint16(20)
-		if bigSize || bigOff {
+		if bigU || bigC || bigOff {
 			ver = 45
 		}
 		var lh []byte
 		lh = u32(lh, 0x04034b50)
-		lh = u16(u16(u16(lh, ver), 0), 0) // version, flags, method stored
-		lh = u16(u16(lh, 0), 0x21)        // time, date
-		lh = u32(u32(u32(lh, crc), s32), s32)
+		lh = u16(u16(u16(lh, ver), 0), method)
+		lh = u16(u16(lh, 0), 0x21) // time, date
+		lh = u32(u32(u32(lh, crc), c32l), u32l)
 		lh = u16(u16(lh, uint16(len(m.name))), uint16(len(lextra)))
 		lh = append(append(lh, m.name...), lextra...)
 		s.pieces = append(s.pieces, piece{pos, lh})
 		dataOff := pos + int64(len(lh))
-		if m.data != nil && len(m.data) > 0 {
-			s.pieces = append(s.pieces, piece{dataOff, m.data})
+		if len(payload) > 0 {
+			s.pieces = append(s.pieces, piece{dataOff, payload})
 		}
 		// central entry
-		var cextra []byte
-		o32 := uint32(pos)
-		var z []byte
-		if style == "full" && (bigSize || bigOff) {
-			z = u64(u64(u64(z, uint64(size)), uint64(size)), uint64(pos))
-			s32c := uint32(0xffffffff)
-			o32 = 0xffffffff
-			cextra = append(u16(u16(cextra, 1), uint16(len(z))), z...)
-			cd = centralEntry(cd, ver, crc, s32c, s32c, m.name, cextra, o32)
+		var cextra, z []byte
+		u32c, c32c, o32 := uint32(usize), uint32(csize), uint32(pos)
+		if style == "full" && (bigU || bigC || bigOff) {
+			z = u64(u64(u64(z, uint64(usize)), uint64(csize)), uint64(pos))
+			u32c, c32c, o32 = 0xffffffff, 0xffffffff, 0xffffffff
 		} else {
-			s32c := uint32(size)
-			if bigSize {
-				s32c = 0xffffffff
-				z = u64(u64(z, uint64(size)), uint64(size))
+			if bigU {
+				u32c = 0xffffffff
+				z = u64(z, uint64(usize))
+			}
+			if bigC {
+				c32c = 0xffffffff
+				z = u64(z, uint64(csize))
 			}
 			if bigOff {
 				o32 = 0xffffffff
 				z = u64(z, uint64(pos))
 			}
-			if z != nil {
-				cextra = append(u16(u16(cextra, 1), uint16(len(z))), z...)
-			}
-			cd = centralEntry(cd, ver, crc, s32c, s32c, m.name, cextra, o32)
 		}
-		e := entry{Name: m.name, Offset: pos, DataOff: dataOff, CSize: uint64(size), USize: uint64(size), CRC: crc}
+		if z != nil {
+			cextra = append(u16(u16(cextra, 1), uint16(len(z))), z...)
+		}
+		cd = centralEntry(cd, ver, method, crc, c32c, u32c, m.name, cextra, o32)
+		e := entry{Name: m.name, Offset: pos, DataOff: dataOff, CSize: uint64(csize), USize: uint64(usize), CRC: crc, Method: method}
 		if m.data != nil {
 			e.SHA = sha(m.data)
 		}
 		want = append(want, e)
-		pos = dataOff + size
+		pos = dataOff + csize
 	}
 	cdOff := pos
 	// ZIP64 end of central directory record + locator + end record
@@ -225,11 +260,11 @@ func buildBig(members []bigMember, style string) (*sparse, []entry) {
 	return s, want
 }
 
-func centralEntry(cd []byte, ver uint16, crc, csize, usize uint32, name string, extra []byte, off uint32) []byte {
+func centralEntry(cd []byte, ver, method uint16, crc, csize, usize uint32, name string, extra []byte, off uint32) []byte {
 	le := binary.LittleEndian
 	cd = le.AppendUint32(cd, 0x02014b50)
 	cd = le.AppendUint16(le.AppendUint16(cd, ver), ver)
-	cd = le.AppendUint16(le.AppendUint16(cd, 0), 0) // flags, method
+	cd = le.AppendUint16(le.AppendUint16(cd, 0), method) // flags, method
 	cd = le.AppendUint16(le.AppendUint16(cd, 0), 0x21)
 	cd = le.AppendUint32(le.AppendUint32(le.AppendUint32(cd, crc), csize), usize)
 	cd = le.AppendUint16(le.AppendUint16(le.AppendUint16(cd, uint16(len(name))), uint16(len(extra))), 0)
@@ -319,37 +354,91 @@ func compareBig(what string, got, want []entry) string {
 	return ""
 }
 
+// bigDir is where sparse files go: tmpfs reads holes much faster than the disk does.
+func bigDir() string {
+	if st, err := os.Stat("/dev/shm"); err == nil && st.IsDir() {
+		return "/dev/shm"
+	}
+	return workDir
+}
+
+// openBig opens the archive with relic: random access over the sparse string, or
+// single-pass over the tar stream ZipToTar makes of a (sparse) file.
+func openBig(s *sparse, streaming bool) (d *zipslicer.Directory, done func(), err error) {
+	if !streaming {
+		d, err = zipslicer.Read(s, s.size)
+		return d, func() {}, err
+	}
+	path := filepath.Join(bigDir(), fmt.Sprintf("c17-big-%d.zip", os.Getpid()))
+	if err := s.toFile(path); err != nil {
+		return nil, nil, fmt.Errorf("harness: %w", err)
+	}
+	f, err := os.Open(path)
+	if err != nil {
+		os.Remove(path)
+		return nil, nil, fmt.Errorf("harness: %w", err)
+	}
+	pr, pw := io.Pipe()
+	go func() { pw.CloseWithError(zipslicer.ZipToTar(f, pw)) }()
+	done = func() { io.Copy(io.Discard, pr); pr.Close(); f.Close(); os.Remove(path) }
+	d, err = zipslicer.ReadZipTar(pr)
+	if err != nil {
+		done()
+		return nil, nil, err
+	}
+	return d, done, nil
+}
+
 func TestC17_BeyondFourGiB(t *testing.T) {
-	// Python reads the whole 4 GiB member (about 2.5 s): one case in 500 (quick) or 25
-	pyEvery := evid.EnvInt("VERIF_C17_BIG_PYTHON", 500)
+	// Python works on a sparse file and the streaming reader goes through every byte of
+	// the 4 GiB members (seconds a case): one case in 200 (quick) or 10 (thorough) each
+	slowEvery := evid.EnvInt("VERIF_C17_BIG_SLOW", 200)
 	if evid.Thorough() {
-		pyEvery = 25
+		slowEvery = 10
 	}
 	rapid.Check(t, func(t *rapid.T) {
 		const test = "TestC17_BeyondFourGiB"
 		style := rapid.SampledFrom([]string{"full", "minimal"}).Draw(t, "zip64_style")
 		k := int64(rapid.SampledFrom([]int{0, 1, 16, 4096}).Draw(t, "over"))
-		bigFirst := rapid.Bool().Draw(t, "big_first")
-		nAfter := rapid.IntRange(1, 3).Draw(t, "members_after")
-		// rapid's integers lean towards small values and the bounds: pick a residue in the middle
-		withPython := pyEvery > 0 && rapid.Uint64().Draw(t, "python_lot")%uint64(pyEvery) == uint64(pyEvery*2/3)
-		var members []bigMember
-		if !bigFirst {
-			members = append(members, bigMember{name: "a.txt", data: []byte("first member\n")})
+		kinds := rapid.SliceOfN(rapid.SampledFrom([]string{"small", "small", "stored4g", "deflated4g"}), 2, 5).Draw(t, "members")
+		nBig := 0
+		for _, kd := range kinds {
+			if kd != "small" {
+				nBig++
+			}
 		}
-		members = append(members, bigMember{name: "big.bin", size: 0xffffffff + 1 + k})
-		for i := 0; i < nAfter; i++ {
-			members = append(members, bigMember{name: fmt.Sprintf("after%d.txt", i), data: []byte(fmt.Sprintf("member %d located above four gibibytes\n", i))})
+		if nBig == 0 {
+			kinds[rapid.IntRange(0, len(kinds)-2).Draw(t, "big_at")] = rapid.SampledFrom([]string{"stored4g", "deflated4g"}).Draw(t, "big_kind")
+		}
+		// rapid's integers lean towards small values and the bounds: pick a residue in the middle
+		lot := rapid.Uint64().Draw(t, "slow_lot")
+		withPython := slowEvery > 0 && lot%uint64(slowEvery) == uint64(slowEvery*2/3)
+		streaming := slowEvery > 0 && lot%uint64(slowEvery) == uint64(slowEvery/3)
+		var members []bigMember
+		for i, kd := range kinds {
+			switch kd {
+			case "small":
+				members = append(members, bigMember{name: fmt.Sprintf("m%d.txt", i), data: []byte(fmt.Sprintf("small member %d\n", i))})
+			case "stored4g":
+				members = append(members, bigMember{name: fmt.Sprintf("m%d.bin", i), size: 0xffffffff + 1 + k})
+			case "deflated4g":
+				members = append(members, bigMember{name: fmt.Sprintf("m%d.z", i), size: 0xffffffff + 1 + k, deflated: true})
+			}
 		}
 		s, want := buildBig(members, style)
-		desc := map[string]any{"zip64_style": style, "big_member_bytes": members[len(members)-nAfter-1].size, "big_first": bigFirst, "members_after": nAfter}
+		mode := "random-access"
+		if streaming {
+			mode = "streaming"
+		}
+		desc := map[string]any{"zip64_style": style, "over_4GiB_by": k, "members": kinds, "archive_bytes": s.size, "mode": mode}
 		failf := func(f string, args ...any) {
 			desc["error"] = fmt.Sprintf(f, args...)
 			evid.SaveCase(test, desc)
 			t.Fatalf("%s\n %v", desc["error"], desc)
 		}
-		rec.Case(fmt.Sprintf("big|%s|%d|%v|%d", style, k, bigFirst, nAfter), "beyond-4GiB/"+style, true)
-		rec.Sample("beyond-4GiB/"+style, desc)
+		class := "beyond-4GiB/" + style + "/" + mode
+		rec.Case(fmt.Sprintf("big|%s|%d|%v|%s", style, k, kinds, mode), class, true)
+		rec.Sample(class, desc)
 		goEnts, err := goListSparse(s)
 		if err != nil {
 			t.Fatalf("harness: archive/zip refuses the generated archive: %v", err)
@@ -364,57 +453,14 @@ func TestC17_BeyondFourGiB(t *testing.T) {
 		if d := compareBig("zipslicer.Read", rel, want); d != "" {
 			failf("%s", d)
 		}
-		// rewrite: delete the first member (everything behind it moves), add a file
-		d, err := zipslicer.Read(s, s.size)
+		// rewrite: delete one member that has others behind it (they all move), add a file
+		victim := members[rapid.IntRange(0, len(members)-2).Draw(t, "delete")].name
+		desc["deleted"] = victim
+		out, err := rewriteBig(s, victim, streaming)
 		if err != nil {
-			failf("re-open: %v", err)
-		}
-		victim := members[0].name
-		if victim == "big.bin" {
-			victim = members[1].name // keep the big member, drop the one right behind it
-		}
-		m, err := d.Mangle(func(mf *zipslicer.MangleFile) error {
-			if mf.Name == victim {
-				mf.Delete()
-			}
-			return nil
-		})
-		if err != nil {
-			failf("Mangle: %v", err)
+			failf("rewrite (%s): %v", mode, err)
 		}
 		added := []byte("added by the rewrite\n")
-		if err := m.NewFile("added.txt", added); err != nil {
-			failf("NewFile: %v", err)
-		}
-		ps, err := m.MakePatch(false)
-		if err != nil {
-			failf("MakePatch: %v", err)
-		}
-		type p struct {
-			off, old int64
-			blob     []byte
-		}
-		var ps2 []p
-		for i, h := range ps.Patches {
-			ps2 = append(ps2, p{h.Offset, int64(h.OldSize), ps.Blobs[i]})
-		}
-		sort.SliceStable(ps2, func(i, j int) bool { return ps2[i].off < ps2[j].off })
-		out := &sparse{}
-		pos, at := int64(0), int64(0)
-		for _, x := range ps2 {
-			if x.off < pos || x.off+x.old > s.size {
-				failf("patch range [%d,%d) out of order or out of bounds", x.off, x.off+x.old)
-			}
-			out.pieces = append(out.pieces, s.slice(pos, x.off, at)...)
-			at += x.off - pos
-			if len(x.blob) > 0 {
-				out.pieces = append(out.pieces, piece{at, x.blob})
-				at += int64(len(x.blob))
-			}
-			pos = x.off + x.old
-		}
-		out.pieces = append(out.pieces, s.slice(pos, s.size, at)...)
-		out.size = at + s.size - pos
 		var want2 []entry
 		for _, w := range want {
 			if w.Name != victim {
@@ -426,10 +472,10 @@ func TestC17_BeyondFourGiB(t *testing.T) {
 		if err != nil {
 			failf("archive/zip cannot read the archive relic rewrote (deleted %q, added a file): %v", victim, err)
 		}
-		// stored added file may be deflated by relic: compare names, uncompressed sizes, content
+		// the added file may be deflated by relic: its compressed size is relic's choice
 		for i := range goOut {
 			if i < len(want2) && goOut[i].Name == "added.txt" {
-				want2[i].CSize, want2[i].CRC = goOut[i].CSize, goOut[i].CRC
+				want2[i].CSize = goOut[i].CSize
 			}
 		}
 		if d := compareBig("archive/zip on the rewritten archive", goOut, want2); d != "" {
@@ -443,7 +489,7 @@ func TestC17_BeyondFourGiB(t *testing.T) {
 			failf("%s", d)
 		}
 		if withPython {
-			path := writeTemp(nil)
+			path := filepath.Join(bigDir(), fmt.Sprintf("c17-bigout-%d.zip", os.Getpid()))
 			defer os.Remove(path)
 			if err := out.toFile(path); err != nil {
 				t.Fatalf("harness: %v", err)
@@ -456,10 +502,79 @@ func TestC17_BeyondFourGiB(t *testing.T) {
 				failf("Python zipfile sees %d members in the rewritten archive, want %d", len(l.Members), len(want2))
 			}
 			for i, pm := range l.Members {
-				if pm.FileSize != want2[i].USize || (pm.ReadError != "" && want2[i].USize < 1<<20) {
+				// the Python reference does not read members beyond 1 GiB
+				if pm.FileSize != want2[i].USize || (pm.ReadError != "" && want2[i].USize < 1<<30) {
 					failf("Python zipfile: member %d of the rewritten archive: size %d read error %q, want size %d", i, pm.FileSize, pm.ReadError, want2[i].USize)
 				}
 			}
 		}
 	})
+}
+
+// rewriteBig deletes one member and adds a file through Mangle / NewFile / MakePatch and
+// applies the patch with a harness-owned splice over the sparse representation.
+func rewriteBig(s *sparse, victim string, streaming bool) (out *sparse, err error) {
+	defer func() {
+		if r := recover(); r != nil {
+			err = fmt.Errorf("PANIC: %v", r)
+		}
+	}()
+	d, done, err := openBig(s, streaming)
+	if err != nil {
+		return nil, err
+	}
+	defer done()
+	m, err := d.Mangle(func(mf *zipslicer.MangleFile) error {
+		if streaming {
+			// signers consume every member's content while walking
+			rc, err := mf.Open()
+			if err != nil {
+				return err
+			}
+			if _, err := io.Copy(io.Discard, rc); err != nil {
+				return err
+			}
+			rc.Close()
+		}
+		if mf.Name == victim {
+			mf.Delete()
+		}
+		return nil
+	})
+	if err != nil {
+		return nil, fmt.Errorf("Mangle: %w", err)
+	}
+	if err := m.NewFile("added.txt", []byte("added by the rewrite\n")); err != nil {
+		return nil, fmt.Errorf("NewFile: %w", err)
+	}
+	ps, err := m.MakePatch(false)
+	if err != nil {
+		return nil, fmt.Errorf("MakePatch: %w", err)
+	}
+	type p struct {
+		off, old int64
+		blob     []byte
+	}
+	var ps2 []p
+	for i, h := range ps.Patches {
+		ps2 = append(ps2, p{h.Offset, int64(h.OldSize), ps.Blobs[i]})
+	}
+	sort.SliceStable(ps2, func(i, j int) bool { return ps2[i].off < ps2[j].off })
+	out = &sparse{}
+	pos, at := int64(0), int64(0)
+	for _, x := range ps2 {
+		if x.off < pos || x.off+x.old > s.size {
+			return nil, fmt.Errorf("patch range [%d,%d) out of order or out of bounds (file %d)", x.off, x.off+x.old, s.size)
+		}
+		out.pieces = append(out.pieces, s.slice(pos, x.off, at)...)
+		at += x.off - pos
+		if len(x.blob) > 0 {
+			out.pieces = append(out.pieces, piece{at, x.blob})
+			at += int64(len(x.blob))
+		}
+		pos = x.off + x.old
+	}
+	out.pieces = append(out.pieces, s.slice(pos, s.size, at)...)
+	out.size = at + s.size - pos
+	return out, nil
 }
